@@ -1,5 +1,6 @@
 import EaselModel.Sqio.NoFault
 import EaselModel.Sqio.DriverLogic
+import EaselModel.Sqio.Totality
 /-! # C02 — sequence-file input is total: any bytes give a normal outcome
 
 Property theorems only (proofs are glue on `Sqio/Refine.lean`, `Sqio/NoFault.lean`).
@@ -58,5 +59,56 @@ theorem inmaps_agree :
 /-- non-vacuity: the state right after opening a 5-byte file with B = 2 satisfies `Pre`, and after `loadbuf` the cursor is on a byte -/
 example : Pre { file := #[62, 97, 10, 65, 10], B := 2 } := ⟨rfl, by decide, by decide, by decide, by decide⟩
 example : (loadbuf { file := #[62, 97, 10, 65, 10], B := 2 }).2 = .ok ∧ (loadbuf { file := #[62, 97, 10, 65, 10], B := 2 }).1.nc = 2 := by decide
+
+
+/-! ## Totality at the level of the reading calls (round 3) — corollaries of the closed forms (`Sqio/ReadSpec.lean`, `Sqio/Totality.lean`) -/
+
+open EaselModel.Sqio.ReadSpec EaselModel.Sqio.Totality in
+/-- **`sqascii_Read` (FASTA) is total, as a theorem about the call**: from every ready handle — any file bytes, any cursor position, any
+    block size `B ≥ 1`, text or digital — the outcome is `eslOK`, `eslEOF` or `eslEFORMAT`; in particular never `fault` (no `buf[i]`
+    outside the buffer, no store outside an allocation of the `ESL_SQ`, through `loadbuf` / `nextchar` / `header_fasta` / `seebuf` /
+    `addbuf` / `end_fasta` composed); `eslEFORMAT` comes with a message; on `eslOK` the record is well formed (non-empty name, strings and
+    residues inside their allocations with room for the terminator, `start = 1`, `end = W = L = n`, `C = 0`, `0 ≤ roff < hoff ≤ doff ≤
+    eoff + 1`), at least one byte was consumed, and the handle is ready for the next call. -/
+theorem read_total (a : Ascii) (sq : Sq) (R : Ready a sq) :
+    ((read a sq).2.2 = .ok ∨ (read a sq).2.2 = .eof ∨ (read a sq).2.2 = .eformat) ∧
+    ((read a sq).2.2 = .eformat → (read a sq).1.haveErr = true) ∧
+    ((read a sq).2.2 = .ok → WellFormed (read a sq).2.1 ∧ Ready (read a sq).1 (read a sq).2.1.reuse ∧
+       (DataScan.fileFrom (read a sq).1).length < (DataScan.fileFrom a).length) := Totality.read_total a sq R
+
+open EaselModel.Sqio.ReadSpec in
+theorem read_no_fault (a : Ascii) (sq : Sq) (R : Ready a sq) : (read a sq).2.2 ≠ .fault := by
+  rcases (Totality.read_total a sq R).1 with h | h | h <;> rw [h] <;> decide
+
+open EaselModel.Sqio.ReadSpec in
+/-- the info-only call: `eslOK` / `eslEOF` / `eslEFORMAT` (with a message), never `fault` -/
+theorem readInfo_total (a : Ascii) (sq : Sq) (R : Ready a sq) (hsa : 2 ≤ sq.salloc) :
+    ((readInfo a sq).2.2 = .ok ∨ (readInfo a sq).2.2 = .eof ∨ (readInfo a sq).2.2 = .eformat) ∧
+    ((readInfo a sq).2.2 = .eformat → (readInfo a sq).1.haveErr = true) := Totality.readInfo_total a sq R hsa
+
+open EaselModel.Sqio.ReadSpec in
+/-- the sequence-only call: `eslOK` / `eslEOF` / `eslEFORMAT` (with a message), never `fault` -/
+theorem readSequence_total (a : Ascii) (sq : Sq) (R : Ready a sq) :
+    ((readSequence a sq).2.2 = .ok ∨ (readSequence a sq).2.2 = .eof ∨ (readSequence a sq).2.2 = .eformat) ∧
+    ((readSequence a sq).2.2 = .eformat → (readSequence a sq).1.haveErr = true) := Totality.readSequence_total a sq R
+
+open EaselModel.Sqio.ParseFasta EaselModel.Sqio.Totality in
+/-- **The whole FASTA reader is total, for EVERY byte string and EVERY block size `B ≥ 1`** (text, DNA, RNA, amino): opening the file
+    and reading records until the first non-`eslOK` status ends within `size + 2` calls with `eslEOF` or `eslEFORMAT` — never `fault` —
+    and every record returned on the way is well formed. -/
+theorem read_all_total (bytes : Bytes) (B abc : Nat) (hB : 1 ≤ B) (habc : abc ∈ [0, 1, 2, 3]) :
+    ((readAllM (bytes.size + 2) (openFasta bytes B abc) (freshSq abc)).2 = .eof ∨
+     (readAllM (bytes.size + 2) (openFasta bytes B abc) (freshSq abc)).2 = .eformat) ∧
+    ∀ s ∈ (readAllM (bytes.size + 2) (openFasta bytes B abc) (freshSq abc)).1, WellFormed s :=
+  Totality.read_all_total bytes B abc hB habc
+
+open EaselModel.Sqio.ParseFasta EaselModel.Sqio.ReadSpec in
+/-- non-vacuity of `Ready`: every file, every `B ≥ 1`, every mode, right after open -/
+example (bytes : Bytes) (B abc : Nat) (hB : 1 ≤ B) (habc : abc ∈ [0, 1, 2, 3]) : Ready (openFasta bytes B abc) (freshSq abc).reuse :=
+  (openFasta_ready bytes B abc hB habc).1
+
+/-- a malformed file (`>` `\n` `A`: a record without a name) with B = 1 in text mode: the closed form says `eslEFORMAT` -/
+example : (ParseFasta.parseFasta 0 #[62, 10, 65]).2 = Status.eformat ∧ (ParseFasta.parseFasta 0 #[62, 10, 65]).1.length = 0 := by
+  decide +kernel
 
 end EaselModel.Props.C02
